@@ -571,6 +571,11 @@ def prov9(ctx, pid):
                 g = last[0][2][0]
                 if g[0] == "gen" and g[2] == (n,) and g[1] == ("cmp", "notin", ("iter", n, "c"), C(frozenset(range(16)))):
                     refusals["range"] = True
+            # the same test by De Morgan: not all(x in VALID for x in nibbles)
+            if last and last[0][0] == "call" and last[0][1] == "ext:all" and last[1] is False:
+                g = last[0][2][0]
+                if g[0] == "gen" and g[2] == (n,) and g[1] == ("cmp", "in", ("iter", n, "c"), C(frozenset(range(16)))):
+                    refusals["range"] = True
             if last and last[0] == ("bin", "%", ("len", n), C(2)) and last[1] is True:
                 refusals["parity"] = True
             r = rel_norm(st.log[-1][0], st.log[-1][1]) if st.log else None
